@@ -182,6 +182,13 @@ func (f iface) calleeYAML() string {
 	b.WriteString("on:\n  workflow_call:\n    inputs:\n")
 	for i, n := range f.names {
 		req := fmt.Sprint(f.req[i])
+		// (the three spellings YAML has for a boolean: the file-derived and the AST-derived interface agree on them)
+		switch (i + len(n)) % 3 {
+		case 1:
+			req = strings.ToUpper(req[:1]) + req[1:]
+		case 2:
+			req = strings.ToUpper(req)
+		}
 		if f.reqExpr != nil && f.reqExpr[i] {
 			req = "${{ github.event_name == 'push' }}"
 		}
@@ -202,7 +209,7 @@ func (f iface) calleeYAML() string {
 	if f.secReqExpr {
 		b.WriteString("    secrets:\n      tok:\n        required: ${{ true }}\n")
 	} else {
-		b.WriteString("    secrets:\n      tok:\n        required: true\n")
+		b.WriteString("    secrets:\n      tok:\n        required: " + []string{"true", "True", "TRUE"}[len(f.names)%3] + "\n")
 	}
 	if !f.noOutputs {
 		b.WriteString("    outputs:\n      res:\n        value: ${{ jobs.j.outputs.o }}\n")
